@@ -177,22 +177,53 @@ func nativeReplay(pkg string, cases []replayCase) (map[string]replayOut, error) 
 	os.WriteFile(ovPath, ov, 0o644)
 	inPath := filepath.Join(tmp, "in.json")
 	outPath := filepath.Join(tmp, "out.json")
-	b, _ := json.Marshal(cases)
-	os.WriteFile(inPath, b, 0o644)
-	env := append(goEnv(), "ZZV_REPLAY_IN="+inPath, "ZZV_REPLAY_OUT="+outPath)
-	out, err := runCmd(repoDir, env, 10*time.Minute, "go", "test", "-vet=off", "-count=1", "-overlay", ovPath,
-		"-run", "^TestZZVReplay$", "-timeout", "9m", "./pkg/"+pkg)
-	data, rerr := os.ReadFile(outPath)
-	if rerr != nil {
-		return nil, fmt.Errorf("native replay produced no output (%v): %s", err, tail(out, 3000))
+	// build the test binary once, then run it; if the process dies (stack overflow, fatal
+	// error) the cases are re-run one per process so that the crashing case is identified.
+	bin := filepath.Join(tmp, "replay.test")
+	out, err := runCmd(repoDir, goEnv(), 10*time.Minute, "go", "test", "-c", "-vet=off", "-overlay", ovPath, "-o", bin, "./pkg/"+pkg)
+	if err != nil {
+		return nil, fmt.Errorf("native replay: building the test binary failed (%v): %s", err, tail(out, 3000))
 	}
-	var outs []replayOut
-	if jerr := json.Unmarshal(data, &outs); jerr != nil {
-		return nil, jerr
+	runCases := func(cs []replayCase) ([]replayOut, string, error) {
+		b, _ := json.Marshal(cs)
+		os.WriteFile(inPath, b, 0o644)
+		os.Remove(outPath)
+		env := append(goEnv(), "ZZV_REPLAY_IN="+inPath, "ZZV_REPLAY_OUT="+outPath)
+		out, err := runCmd(filepath.Join(repoDir, "pkg", pkg), env, 10*time.Minute, bin, "-test.run", "^TestZZVReplay$", "-test.timeout", "9m")
+		data, rerr := os.ReadFile(outPath)
+		if rerr != nil {
+			return nil, out, fmt.Errorf("no output (%v)", err)
+		}
+		var outs []replayOut
+		if jerr := json.Unmarshal(data, &outs); jerr != nil {
+			return nil, out, jerr
+		}
+		return outs, out, nil
 	}
 	res := map[string]replayOut{}
-	for _, o := range outs {
-		res[o.ID] = o
+	outs, _, rerr := runCases(cases)
+	if rerr == nil {
+		for _, o := range outs {
+			res[o.ID] = o
+		}
+		return res, nil
+	}
+	for _, c := range cases {
+		outs, text, rerr := runCases([]replayCase{c})
+		if rerr != nil {
+			why := "process crashed"
+			for _, l := range strings.Split(text, "\n") {
+				if strings.Contains(l, "fatal error") || strings.Contains(l, "stack overflow") || strings.Contains(l, "goroutine stack exceeds") {
+					why = "process crashed: " + strings.TrimSpace(l)
+					break
+				}
+			}
+			res[c.ID] = replayOut{ID: c.ID, Panic: why}
+			continue
+		}
+		for _, o := range outs {
+			res[o.ID] = o
+		}
 	}
 	return res, nil
 }
